@@ -799,9 +799,13 @@ class HState:
         self.latent_msgs.setdefault(name, []).append((cid, unseen, idate))
         self.log(f"ENV: deliver 1 to {name} unseen={unseen} within the second of the folder's mtime")
         inner = ev["then"]
-        ms = self.model.session(inner["s"])
-        if not (ms.dead or ms.idling):
+        if inner["s"] == "env":
+            # time passes before the mtime advances: the management task's idle branch (resync that does not look, pack) runs
             getattr(self, "ev_" + inner["op"])(inner)
+        else:
+            ms = self.model.session(inner["s"])
+            if not (ms.dead or ms.idling):
+                getattr(self, "ev_" + inner["op"])(inner)
         self._promote_latent(name)
         self.w.touch(folder)
         self.log(f"ENV: tick {name}")
